@@ -14,7 +14,7 @@ from .. import canon, fast, stepcorr as S, stepprop as P  # noqa: F401
 from ..common import quiet
 
 LAYER_A = ['delete_fields', 'select_fields', 'add_field', 'filter_rows', 'deduplicate', 'delete_resource',
-           'set_primary_key', 'update_resource', 'duplicate']
+           'set_primary_key', 'update_resource', 'duplicate', 'add_computed_field', 'find_replace']
 
 
 def base_resource(rng, n):
